@@ -1446,6 +1446,56 @@ func (e *emitter) ipShape(repo string) {
 		leanStr(sep), count, bound, mask, strings.Join(dflt, ", "))
 }
 
+// wrapCall: a function whose body is the single statement `return G(a1, …, an)`.  Emits
+// `def wrapcall_F : String × List String := (G, [text of a1, …])` where parameters are written #0, #1, … (positional, so a
+// rename is invisible), constant expressions are written as the decimal value Go's type checker computed, and everything
+// else is the source text.  Any other body gives ("?", []).
+func (e *emitter) wrapCall(u *unit, name string) {
+	callee, args := "?", []string{}
+	if fd := u.fn(name); fd != nil && fd.Body != nil && len(fd.Body.List) == 1 {
+		if rs, ok := fd.Body.List[0].(*ast.ReturnStmt); ok && len(rs.Results) == 1 {
+			if c, ok := rs.Results[0].(*ast.CallExpr); ok {
+				if id, ok := c.Fun.(*ast.Ident); ok {
+					callee = id.Name
+					pos := map[string]int{}
+					k := 0
+					if fd.Type.Params != nil {
+						for _, fl := range fd.Type.Params.List {
+							for _, n := range fl.Names {
+								pos[n.Name] = k
+								k++
+							}
+						}
+					}
+					for _, a := range c.Args {
+						if v, ok := constInt(u.info.Types[a]); ok {
+							args = append(args, v.String())
+							continue
+						}
+						var renamed []*ast.Ident
+						var olds []string
+						ast.Inspect(a, func(n ast.Node) bool {
+							if id, ok := n.(*ast.Ident); ok {
+								if p, ok := pos[id.Name]; ok && id.Obj != nil && id.Obj.Kind == ast.Var {
+									renamed = append(renamed, id)
+									olds = append(olds, id.Name)
+									id.Name = fmt.Sprintf("#%d", p)
+								}
+							}
+							return true
+						})
+						args = append(args, types.ExprString(a))
+						for i, id := range renamed {
+							id.Name = olds[i]
+						}
+					}
+				}
+			}
+		}
+	}
+	fmt.Fprintf(&e.w, "def wrapcall_%s : String × List String := (%s, [%s])\n", name, leanStr(callee), quoteAll(args))
+}
+
 // ---------------------------------------------------------------- hidden state
 
 // name of the receiver type of a method
@@ -1625,6 +1675,224 @@ func stateScan(repo, dir string, only string) (vars []string, refs [][2]string) 
 }
 
 
+// argScan: what a function does with the memory behind its slice parameters.  Per function of the given
+// files: the set D of names that may alias a slice parameter (the parameters of type []T / ...T themselves, and
+// every local assigned from a name in D, from a slice expression of one, or from append(<D>, …) — fixpoint);
+// then
+//   writes: "store" d[i] = … / d[i] op= … / d[i]++ ; "append" append(d…, …) (writes into spare capacity of the
+//           caller's array); "copy" copy(d…, …); "addr" &d[i]; "range-store" is covered by "store"
+//   passes: a call (other than len/cap/string/conversions/append/copy) that receives a name in D or a slice
+//           expression of one: (function, "local", F) when F is a function declared in the scanned files,
+//           else (function, "extern", text of the callee)
+func argScan(repo, dir string, only string) (writes [][3]string, passes [][3]string) {
+	fset := token.NewFileSet()
+	pkgs, err := parser.ParseDir(fset, filepath.Join(repo, dir), func(fi os.FileInfo) bool {
+		return !strings.HasSuffix(fi.Name(), "_test.go") && (only == "" || fi.Name() == only)
+	}, 0)
+	if err != nil {
+		return [][3]string{{"?parse", "?", "?"}}, nil
+	}
+	var files []*ast.File
+	for _, p := range pkgs {
+		var names []string
+		for n := range p.Files {
+			names = append(names, n)
+		}
+		sort.Strings(names)
+		for _, n := range names {
+			files = append(files, p.Files[n])
+		}
+	}
+	localFn := map[string]bool{}
+	for _, f := range files {
+		for _, d := range f.Decls {
+			if fd, ok := d.(*ast.FuncDecl); ok && fd.Recv == nil {
+				localFn[fd.Name.Name] = true
+			}
+		}
+	}
+	strip := func(e ast.Expr) ast.Expr {
+		for {
+			p, ok := e.(*ast.ParenExpr)
+			if !ok {
+				return e
+			}
+			e = p.X
+		}
+	}
+	// root of d, d[a:b], (d)[a:b][c:d]
+	var sliceRoot func(e ast.Expr) *ast.Ident
+	sliceRoot = func(e ast.Expr) *ast.Ident {
+		switch x := strip(e).(type) {
+		case *ast.Ident:
+			return x
+		case *ast.SliceExpr:
+			return sliceRoot(x.X)
+		}
+		return nil
+	}
+	exprText := func(e ast.Expr) string {
+		var parts []string
+		for {
+			switch x := e.(type) {
+			case *ast.Ident:
+				parts = append([]string{x.Name}, parts...)
+				return strings.Join(parts, ".")
+			case *ast.SelectorExpr:
+				parts = append([]string{x.Sel.Name}, parts...)
+				e = x.X
+			default:
+				return "?" + strings.Join(parts, ".")
+			}
+		}
+	}
+	for _, f := range files {
+		for _, d := range f.Decls {
+			fd, ok := d.(*ast.FuncDecl)
+			if !ok || fd.Body == nil {
+				continue
+			}
+			name := fd.Name.Name
+			if rt := recvType(fd); rt != "" {
+				name = rt + "." + name
+			}
+			D := map[string]bool{}
+			if fd.Type.Params != nil {
+				for _, fl := range fd.Type.Params.List {
+					isSlice := false
+					switch t := fl.Type.(type) {
+					case *ast.ArrayType:
+						isSlice = t.Len == nil
+					case *ast.Ellipsis:
+						isSlice = true
+					}
+					if isSlice {
+						for _, n := range fl.Names {
+							D[n.Name] = true
+						}
+					}
+				}
+			}
+			if len(D) == 0 {
+				continue
+			}
+			derives := func(e ast.Expr) bool {
+				if id := sliceRoot(e); id != nil && D[id.Name] {
+					return true
+				}
+				if c, ok := strip(e).(*ast.CallExpr); ok {
+					if fn, ok := c.Fun.(*ast.Ident); ok && fn.Name == "append" && len(c.Args) > 0 {
+						if id := sliceRoot(c.Args[0]); id != nil && D[id.Name] {
+							return true
+						}
+					}
+				}
+				return false
+			}
+			for changed := true; changed; {
+				changed = false
+				ast.Inspect(fd.Body, func(n ast.Node) bool {
+					switch x := n.(type) {
+					case *ast.AssignStmt:
+						if len(x.Lhs) == len(x.Rhs) {
+							for i := range x.Lhs {
+								if id, ok := x.Lhs[i].(*ast.Ident); ok && id.Name != "_" && !D[id.Name] && derives(x.Rhs[i]) {
+									D[id.Name] = true
+									changed = true
+								}
+							}
+						}
+					case *ast.ValueSpec:
+						if len(x.Names) == len(x.Values) {
+							for i := range x.Names {
+								if !D[x.Names[i].Name] && derives(x.Values[i]) {
+									D[x.Names[i].Name] = true
+									changed = true
+								}
+							}
+						}
+					}
+					return true
+				})
+			}
+			elemOf := func(e ast.Expr) *ast.Ident { // d[i] / d[a:b][i]
+				if ix, ok := strip(e).(*ast.IndexExpr); ok {
+					if id := sliceRoot(ix.X); id != nil && D[id.Name] {
+						return id
+					}
+				}
+				return nil
+			}
+			ast.Inspect(fd.Body, func(n ast.Node) bool {
+				switch x := n.(type) {
+				case *ast.AssignStmt:
+					for _, l := range x.Lhs {
+						if id := elemOf(l); id != nil {
+							writes = append(writes, [3]string{name, "store", id.Name})
+						}
+					}
+				case *ast.IncDecStmt:
+					if id := elemOf(x.X); id != nil {
+						writes = append(writes, [3]string{name, "store", id.Name})
+					}
+				case *ast.RangeStmt:
+					for _, kv := range []ast.Expr{x.Key, x.Value} {
+						if kv != nil {
+							if id := elemOf(kv); id != nil {
+								writes = append(writes, [3]string{name, "store", id.Name})
+							}
+						}
+					}
+				case *ast.UnaryExpr:
+					if x.Op == token.AND {
+						if id := elemOf(x.X); id != nil {
+							writes = append(writes, [3]string{name, "addr", id.Name})
+						}
+					}
+				case *ast.CallExpr:
+					if fn, ok := x.Fun.(*ast.Ident); ok {
+						switch fn.Name {
+						case "append", "copy":
+							if len(x.Args) > 0 {
+								if id := sliceRoot(x.Args[0]); id != nil && D[id.Name] {
+									writes = append(writes, [3]string{name, fn.Name, id.Name})
+								}
+							}
+							return true
+						case "len", "cap", "string":
+							return true
+						}
+					}
+					if _, ok := x.Fun.(*ast.ArrayType); ok { // conversion []T(x)
+						return true
+					}
+					for _, a := range x.Args {
+						if id := sliceRoot(a); id != nil && D[id.Name] {
+							kind := "extern"
+							if fn, ok := x.Fun.(*ast.Ident); ok && localFn[fn.Name] {
+								kind = "local"
+							}
+							passes = append(passes, [3]string{name, kind, exprText(x.Fun)})
+						}
+					}
+				}
+				return true
+			})
+		}
+	}
+	less := func(a, b [3]string) bool {
+		for k := 0; k < 3; k++ {
+			if a[k] != b[k] {
+				return a[k] < b[k]
+			}
+		}
+		return false
+	}
+	sort.Slice(writes, func(i, j int) bool { return less(writes[i], writes[j]) })
+	sort.Slice(passes, func(i, j int) bool { return less(passes[i], passes[j]) })
+	return
+}
+
 // ---------------------------------------------------------------- main
 
 func main() {
@@ -1672,6 +1940,10 @@ func main() {
 	e.loopFn(mu, "murmurHash", "loop_murmurHash", true)
 	e.loopFn(mu, "murmurHashLong", "loop_murmurHashLong", true)
 	e.fn(mu, "MurmurHashLong", "fn_MurmurHashLong")
+	// the exported one-line wrappers `return G(args)`: callee and arguments (parameters as #k, constants by value)
+	for _, fn := range []string{"MurmurHash", "MurmurHashByte", "MurmurHashByteSeed", "MurmurHashLongByte"} {
+		e.wrapCall(mu, fn)
+	}
 	for _, fn := range []string{"MurmurHashByte", "MurmurHashLongByte"} {
 		var seed *big.Int
 		if fd := mu.fn(fn); fd != nil {
@@ -1716,6 +1988,24 @@ func main() {
 		fmt.Fprintf(&e.w, "/-- package-level `var`s per package, and per function the package-level vars its body mentions\n    (r: read only, w: assigned / incremented / address taken / appended to / method called on it) -/\n")
 		fmt.Fprintf(&e.w, "def pkgVars : List (String × List String) :=\n  [%s]\n\n", strings.Join(pvs, ",\n   "))
 		fmt.Fprintf(&e.w, "def stateRefs : List (String × String × String × String) :=\n  [%s]\n\n", strings.Join(rws, ",\n   "))
+	}
+	// ---- the caller's memory: what each function does with the arrays behind its slice parameters
+	{
+		var ws, ps []string
+		for _, d := range [][2]string{{"util/hash", ""}, {"util/hexa32", ""}, {"util/bitutil", ""}, {"util/iputil", ""},
+			{"util/stringutil", "StringUtil.go"}, {"util/hll", "MurmurHash.go"}} {
+			writes, passes := argScan(*repo, d[0], d[1])
+			for _, r := range writes {
+				ws = append(ws, fmt.Sprintf("(%s, %s, %s, %s)", leanStr(d[0]), leanStr(r[0]), leanStr(r[1]), leanStr(r[2])))
+			}
+			for _, r := range passes {
+				ps = append(ps, fmt.Sprintf("(%s, %s, %s, %s)", leanStr(d[0]), leanStr(r[0]), leanStr(r[1]), leanStr(r[2])))
+			}
+		}
+		fmt.Fprintf(&e.w, "/-- (package, function, kind, name): the function writes through a name that may alias one of its slice parameters\n    (store d[i] = …, append(d…, …) into the caller's spare capacity, copy(d…, …), &d[i]) -/\n")
+		fmt.Fprintf(&e.w, "def argWrites : List (String × String × String × String) :=\n  [%s]\n\n", strings.Join(ws, ",\n   "))
+		fmt.Fprintf(&e.w, "/-- (package, function, kind, callee): the function hands (a slice of) a slice parameter to `callee`\n    (kind `local` = declared in the scanned files of the same package, `extern` = anything else) -/\n")
+		fmt.Fprintf(&e.w, "def argPasses : List (String × String × String × String) :=\n  [%s]\n\n", strings.Join(ps, ",\n   "))
 	}
 	fmt.Fprintf(&e.w, "def unknownCount : Nat := %d\n\nend %s\n", unknownCount, *ns)
 	if err := os.WriteFile(*out, []byte(e.w.String()), 0o644); err != nil {
